@@ -35,6 +35,7 @@ def run_case(job):
     case = {"id": job["id"], "outcome": outcome, "check": job.get("check", []),
             "mode": opts.get("mode", "hydraulics"), "net": netio.project(net)}
     case["converged"] = bool(net.get("converged", False))
+    case["ambient"] = netio.limbs(293.15, netio.TSCALE)
     return case
 
 
